@@ -9,7 +9,7 @@ git -C /repo worktree add -q --detach $work/repo HEAD || exit 2
 cp /repo/src/config.h $work/repo/src/ 2>/dev/null
 (cd $work/repo && git apply "$patch") || { echo "$name: patch does not apply"; git -C /repo worktree remove --force $work/repo; exit 2; }
 # work from a snapshot of /verif so that concurrent editing does not disturb the trial
-rsync -a --exclude build --exclude .git --exclude replay --exclude drafts /verif/ $work/verif/
+rsync -a --exclude build --exclude build_th --exclude .git --exclude replay --exclude drafts /verif/ $work/verif/
 for id in "$@"; do
   (cd $work/verif && VERIF_SKIP_MC=1 REPO=$work/repo VERIF_BUILD=$work/build VERIF_REPLAY=$work/replay VERIF_EVIDENCE=$work/evidence ./check.sh $id quick > $work/$id.log 2>&1
    echo "$name $id exit=$? violations=$(grep -c '^VIOLATION' $work/$id.log) first: $(grep -m1 -E '\] VIOLATION ' $work/$id.log | cut -c1-260)")
